@@ -2018,8 +2018,8 @@ func readBack(disk *simfs.Disk, res *pathResult) {
 	if len(ids) > 600 {
 		// deep-chain packs: every read walks the chain; read a spread sample only
 		var pick []oid
-		for i := 0; i < 32; i++ {
-			pick = append(pick, ids[i*(len(ids)-1)/31])
+		for i := 0; i < 8; i++ {
+			pick = append(pick, ids[i*(len(ids)-1)/7])
 		}
 		ids, sampled = pick, true
 	}
@@ -2326,7 +2326,9 @@ func (x *run) checkObj(path string, g gotObj, sig func(string) string) bool {
 
 func (x *run) judge(path string, res *pathResult) {
 	out, data := x.out, x.c.data
-	sig := func(sym string) string { return "C09|" + path + "|" + sym + "|" + x.fc }
+	// the signature names the ingestion path without its variant (the message has the variant)
+	spath := strings.Split(path, "/")[0]
+	sig := func(sym string) string { return "C09|" + spath + "|" + sym + "|" + x.fc }
 	if res.pv != nil {
 		st := res.stack
 		if len(st) > 1500 {
@@ -2336,7 +2338,15 @@ func (x *run) judge(path string, res *pathResult) {
 		x.logf("%s %s panic", path, x.fc)
 		return
 	}
-	if res.hung || res.budget {
+	if res.hung {
+		// wall-clock watchdog: not a deterministic judgement (machine load), so not a verdict
+		if out.Inconclusive == "" {
+			out.Inconclusive = "watchdog-300s:" + spath
+		}
+		x.logf("%s %s watchdog", path, x.fc)
+		return
+	}
+	if res.budget {
 		st := ""
 		for _, l := range strings.Split(res.stack, "\n") {
 			if strings.Contains(l, "go-git/v6/") && !strings.Contains(l, "verifsim") && len(st) < 3000 {
@@ -2364,7 +2374,7 @@ func (x *run) judge(path string, res *pathResult) {
 	}
 	if res.hugeCnt > 0 {
 		{
-			out.Fail("C09|"+path+"|allocation-from-header-count|header-count", "%s: header announces %d objects in a %d-byte stream; idxfile.(*Writer).OnHeader allocates make(objects, 0, count) = %d bytes per announced object (measured) before any entry is read, i.e. %d MiB here (fatal out-of-memory for large counts; run skipped to keep the worker alive)", path, res.hugeCnt, len(data), res.perEntry, (uint64(res.hugeCnt)*res.perEntry)>>20)
+			out.Fail("C09|"+spath+"|allocation-from-header-count|header-count", "%s: header announces %d objects in a %d-byte stream; idxfile.(*Writer).OnHeader allocates make(objects, 0, count) = %d bytes per announced object (measured) before any entry is read, i.e. %d MiB here (fatal out-of-memory for large counts; run skipped to keep the worker alive)", path, res.hugeCnt, len(data), res.perEntry, (uint64(res.hugeCnt)*res.perEntry)>>20)
 		}
 		x.logf("%s %s huge-count", path, x.fc)
 		return
@@ -2386,6 +2396,8 @@ func (x *run) judge(path string, res *pathResult) {
 		}
 		if x.c.noop && x.bp.bad {
 			out.Probe("cyclic-ref-pair-rejected")
+		} else if b := normBase(x.p.Base); x.c.noop && b.Kind == "deep" && b.N > 4095 && ec == "chain-depth" {
+			out.Probe("over-deep-chain-rejected") // git accepts such a pack; go-git's limit is 4095 (one-directional property)
 		} else if x.c.noop {
 			out.Probe("valid-pack-rejected:" + path)
 			x.logf("   VALID PACK REJECTED: %v", res.err)
@@ -2548,7 +2560,7 @@ func (x *run) judge(path string, res *pathResult) {
 			if len(anomalies) > 0 {
 				why = anomalies[0]
 			}
-			out.Fail("C09|"+path+"|accepted-what-git-rejects|"+v.class, "%s accepted %d bytes (fault %s); git index-pack: %s; %s", path, len(data), x.fc, v.msg, why)
+			out.Fail("C09|"+spath+"|accepted-what-git-rejects|"+v.class, "%s accepted %d bytes (fault %s); git index-pack: %s; %s", path, len(data), x.fc, v.msg, why)
 			x.logf("%s %s accepted git-rejects:%s", path, x.fc, v.class)
 			return
 		}
@@ -2888,11 +2900,15 @@ func TestCheck(t *testing.T) {
 			"a path that returns an error has rejected the pack; objects a failing parser already handed to its storage are not judged (counted only)",
 			"git index-pack (file mode) is the authority for 'git rejects for a structural reason'; 'pack has junk at the end' is counted, not judged, because index-pack --stdin leaves trailing bytes unread",
 			"a recomputed trailer can turn an edit into a different valid pack: accepted packs are then judged only by self-certification, not by membership in the original universe",
-			"at-rest+reopen extends the statement to a stored pack that is corrupted on disk afterwards: every read must fail or return bytes hashing to the requested id",
+			"at-rest+reopen extends the statement to a stored pack that is corrupted on disk afterwards (byte-level faults only): every read must fail or return bytes hashing to the requested id",
+			"signatures name the ingestion path without its variant (seek / storage kind / feed); the message carries the variant. With several edits a violation is attributed to the single edit that reproduces it alone",
+			"a header count above 2^20 is not fed to the PackWriter when idxfile.Writer.OnHeader is measured to allocate in proportion to the announced count (the real call would be a fatal out-of-memory): reported as allocation-from-header-count",
+			"the 300 s wall-clock watchdog yields Inconclusive, never a verdict; the deterministic read budget (64 reads per stream byte + 200000) yields hang-budget",
+			"packs with more than 600 objects (the 4090..4100 deep chains) are read back as a sample of 8 objects and not iterated",
 		},
 		Real: []string{"packfile.Scanner / Parser (all memory modes) / UpdateObjectStorage / patch-delta", "idxfile.Writer + encoder", "dotgit.PackWriter + syncedReader", "filesystem.ObjectStorage read paths (Packfile, FSObject, iterators, loose objects)", "memory.Storage", "packfile.Encoder (setup)"},
 		Stub: []string{"the byte stream (chunkReader: planned delivery sizes, optional Seek, read budget)", "the disk (simfs)", "real git 2.39 as setup tool and judge"},
-		Runs: map[string]int{"quick": 12000, "thorough": 60000}, // measured: ~20 plans/s (~1000 expanded runs/s) per worker
+		Runs: map[string]int{"quick": 6000, "thorough": 40000}, // measured: 12000 quick plans = 579k expanded runs = 29 core-minutes (user+sys)
 		NewPlan: func() any { return &Plan{} },
 		Gen:     genPlan,
 		Expand:  expand,
